@@ -110,7 +110,7 @@ def run_variant(v: dict) -> Tuple[dict, bool, str]:
                  # ASL_SELFTEST_META=1: also demand the same verdict under the behaviour-preserving
                  # rewrites of tools/refactor (for mutants only: the rewrites of a rewrite are not stacked)
                  "thorough" if os.environ.get("ASL_SELFTEST_META") == "1" and v["kind"] == "mutant" else "quick"],
-                capture_output=True, text=True, timeout=300,
+                capture_output=True, text=True, timeout=900,
             )
             out = proc.stdout + proc.stderr
             if v["kind"] == "mutant":
